@@ -159,6 +159,9 @@ class _VersionIndependentUnmarshaller:
         else:
             self.marshal_version = 0
 
+        # Only Python 2 has a long type distinct from int (shown with an "L" suffix).
+        self.long_type = long if version < (3, 0) else int
+
         self.internStrings = []
         self.internObjects = []
         self.version_tuple = tuple()
@@ -264,17 +267,17 @@ class _VersionIndependentUnmarshaller:
     def t_long(self, save_ref, bytes_for_s=False):
         n = unpack("<i", self.fp.read(4))[0]
         if n == 0:
-            return long(0)
+            return self.long_type(0)
         size = abs(n)
-        d = long(0)
+        d = self.long_type(0)
         for j in range(0, size):
             md = int(unpack("<h", self.fp.read(2))[0])
             # This operation and turn "d" from a long back
             # into an int.
             d += md << j * 15
-            d = long(d)
+            d = self.long_type(d)
         if n < 0:
-            d = long(d * -1)
+            d = self.long_type(d * -1)
 
         return self.r_ref(d, save_ref)
 
